@@ -39,6 +39,82 @@ fn emit_lex(out: &mut String, name: &str, surfaces: &[&str]) {
     writeln!(out, "pub const {}_MAXLEN: usize = {};", name, maxlen).unwrap();
 }
 
+fn u31(x: u32) -> U31 {
+    U31::new(x).unwrap()
+}
+
+fn small_dict(kind: u8, with_user: bool, with_mapper: bool) -> vibrato::Dictionary {
+    let a = "\u{1}";
+    let ab = "\u{1}\u{2}";
+    let entries = vec![
+        RawWordEntry { surface: a.to_string(), param: WordParam::new(1, 1, 10), feature: "s0" },
+        RawWordEntry { surface: ab.to_string(), param: WordParam::new(1, 0, -7), feature: "s1" },
+    ];
+    let sys = Lexicon::from_entries(&entries, LexType::System).unwrap();
+    let user = if with_user {
+        let ue = vec![RawWordEntry { surface: "\u{2}".to_string(), param: WordParam::new(0, 1, 3), feature: "u0" }];
+        Some(Lexicon::from_entries(&ue, LexType::User).unwrap())
+    } else {
+        None
+    };
+    let inv = INVALID_FEATURE_ID;
+    let row = |xs: [u32; 2]| U31x8::verif_from_array([u31(xs[0]), u31(xs[1]), inv, inv, inv, inv, inv, inv]);
+    let zero = U31x8::verif_from_array([u31(0), u31(0), inv, inv, inv, inv, inv, inv]);
+    let scorer = || {
+        let mut b = ScorerBuilder::new();
+        b.insert(u31(1), u31(1), 5);
+        b.insert(u31(1), u31(2), -3);
+        b.insert(u31(2), u31(1), 9);
+        b.insert(u31(0), u31(2), 4);
+        b.build()
+    };
+    let conn = match kind {
+        0 => ConnectorWrapper::Matrix(MatrixConnector::new(vec![0, 1, 2, 3], 2, 2)),
+        1 => ConnectorWrapper::Raw(RawConnector::new(vec![zero, row([1, 2])], vec![zero, row([2, 1])], 1, scorer())),
+        _ => ConnectorWrapper::Dual(DualConnector::verif_from_parts(
+            MatrixConnector::new(vec![0, 1, 2, 3], 2, 2),
+            vec![0, 1],
+            vec![0, 1],
+            vec![zero, row([1, 2])],
+            vec![zero, row([2, 1])],
+            scorer(),
+        )),
+    };
+    let mapper = if with_mapper { Some(ConnIdMapper::from_iter([1u16], [1u16]).unwrap()) } else { None };
+    let table = vec![
+        CharInfo::new(1, 0, false, true, 0).unwrap(),
+        CharInfo::new(2, 1, true, false, 2).unwrap(),
+        CharInfo::new(2, 1, true, false, 2).unwrap(),
+    ];
+    let prop = CharProperty::verif_from_parts(table, vec!["DEFAULT".to_string(), "C".to_string()]);
+    let unk = UnkHandler::verif_from_parts(
+        vec![0, 1, 2],
+        vec![
+            UnkEntry { cate_id: 0, left_id: 0, right_id: 1, word_cost: 100, feature: "k0".to_string() },
+            UnkEntry { cate_id: 1, left_id: 1, right_id: 1, word_cost: 50, feature: "k1".to_string() },
+        ],
+    );
+    vibrato::Dictionary::verif_from_parts(sys, user, conn, mapper, prop, unk)
+}
+
+fn emit_images(out: &mut String) {
+    for (name, kind, user, mapper) in [
+        ("IMG_MATRIX", 0u8, false, false),
+        ("IMG_MATRIX_USER_MAPPED", 0u8, true, true),
+        ("IMG_RAW", 1u8, false, false),
+        ("IMG_DUAL", 2u8, true, false),
+    ] {
+        let d = small_dict(kind, user, mapper);
+        let mut buf = vec![];
+        let n = d.write(&mut buf).unwrap();
+        assert_eq!(n, buf.len());
+        // sanity: the current code reads its own image back
+        vibrato::Dictionary::read(&buf[..]).unwrap();
+        writeln!(out, "/// dictionary image written by the current Dictionary::write (connector kind {kind}, user lexicon {user}, mapper {mapper})").unwrap();
+        writeln!(out, "pub const {}: [u8; {}] = {:?};", name, buf.len(), buf).unwrap();
+    }
+}
+
 fn main() {
     let dir = std::env::args().nth(1).expect("output dir");
     let mut out = String::new();
@@ -62,7 +138,7 @@ fn main() {
     // all surfaces over {a,b} up to length 2 / a deeper one
     emit_lex(&mut out, "LEX_FULL2", &[a, b, aa, ab, ba, "\u{2}\u{2}"]);
     emit_lex(&mut out, "LEX_DEEP", &[a, aa, aab, aba, b]);
-    // with a space inside a surface (C12 precondition violations are out of scope; used by C11)
+    emit_images(&mut out);
     let mut f = std::fs::File::create(format!("{dir}/gen.rs")).unwrap();
     f.write_all(out.as_bytes()).unwrap();
 }
